@@ -810,7 +810,8 @@ def compositions(tier):
 
 def build_hll(real, comp, n_ids, fixed=None):
     lls = [make_ll(real, 2, ('GaussianErrorModel',), n_times=2 + (i % 2), label='id%d' % (i + 1)) for i in range(n_ids)]
-    subs = [HKINDS[k][0](real, n_ids) for k in comp]
+    # (a tuple inside the composition is a ComposedPopulationModel of its own, nested in the outer one)
+    subs = [real.ComposedPopulationModel([HKINDS[k2][0](real, n_ids) for k2 in k]) if isinstance(k, tuple) else HKINDS[k][0](real, n_ids) for k in comp]
     pop = real.ComposedPopulationModel(subs) if len(subs) > 1 else subs[0]
     ncov = pop.n_covariates()
     if fixed is not None:
@@ -822,9 +823,20 @@ def build_hll(real, comp, n_ids, fixed=None):
     return real.HierarchicalLogLikelihood(lls, pop, covariates=cov)
 
 
+def flat_comp(comp):
+    return [k2 for k in comp for k2 in (k if isinstance(k, tuple) else (k,))]
+
+
+def comp_label(comp):
+    return '+'.join('[' + '+'.join(k) + ']' if isinstance(k, tuple) else k for k in comp)
+
+
+NESTED = [(('P', 'G'), 'L'), ('G', ('L', 'H')), (('G', 'L'), 'Gn'), (('H', 'Gn'), ('P',)), ('P', ('C', 'P'))]
+
+
 def hier_dims(comp):
     dims = []
-    for k in comp:
+    for k in flat_comp(comp):
         dims += [HKINDS[k][1] == 'hier'] * (2 if k.endswith('2') else 1)
     return dims
 
@@ -876,13 +888,13 @@ def hierarchical(rec, part):
     import chi as real
     import pints
     ll_names = make_ll(real, 2, ('GaussianErrorModel',)).get_parameter_names()
-    comps = list(compositions(rec.tier))
+    comps = list(compositions(rec.tier)) + NESTED
     comps = comps[part::4]
     configs = []
     for comp in comps:
         for n_ids in (1, 2, 3):
-            configs.append(('HLL(%s, %d ids)' % ('+'.join(comp), n_ids), (lambda comp=comp, n_ids=n_ids: ('hll', comp, n_ids, build_hll(real, comp, n_ids)))))
-        configs.append(('HLL(Reduced(%s){first, last fixed}, 2 ids)' % '+'.join(comp), (lambda comp=comp: ('hll', comp, 2, build_hll(real, comp, 2, fixed=[0, -1])))))
+            configs.append(('HLL(%s, %d ids)' % (comp_label(comp), n_ids), (lambda comp=comp, n_ids=n_ids: ('hll', comp, n_ids, build_hll(real, comp, n_ids)))))
+        configs.append(('HLL(Reduced(%s){first, last fixed}, 2 ids)' % comp_label(comp), (lambda comp=comp: ('hll', comp, 2, build_hll(real, comp, 2, fixed=[0, -1])))))
 
     def to_posterior(st):
         kind, comp, n_ids, h = st
